@@ -259,7 +259,7 @@ class BettingMonitor(Monitor):
 
 
 def make_monitors():
-    return [BettingMonitor()]
+    return [driver.Observer(0.1), BettingMonitor()]
 
 
 def gen_kwargs(rng):
